@@ -4,6 +4,8 @@ package weshnet
 
 import (
 	"fmt"
+
+	"berty.tech/go-orbit-db/stores/operation"
 	"testing"
 	"time"
 
@@ -144,6 +146,106 @@ func TestVerifC08b(t *testing.T) {
 		_ = gcS.Close()
 	}
 	rep.Sample(map[string]interface{}{"part": "orders of announcement / messages / activation on real stores", "orders": len(orders)})
+	c08bBatchWithUnreadableEntry(rep, w)
+	c08bOwnCounters(rep, w)
+}
+
+// c08bBatchWithUnreadableEntry: one replication batch that contains an entry which is no message envelope (anyone with
+// write access to the log can append one) between genuine messages: the genuine ones around it are delivered.
+func c08bBatchWithUnreadableEntry(rep *vrep.Report, w *vWorld) {
+	for _, pos := range []int{0, 1, 2} {
+		g := vDetGroup(w.seed, fmt.Sprintf("c08b-batch-%d", pos))
+		dS, dR := w.newDevice("S", fmt.Sprintf("u%d", pos)), w.newDevice("R", fmt.Sprintf("u%d", pos))
+		gcS, gcR := dS.open(g), dR.open(g)
+		_, err := gcS.MetadataStore().AddDeviceToGroup(w.ctx)
+		vmust(err)
+		_, err = gcR.MetadataStore().AddDeviceToGroup(w.ctx)
+		vmust(err)
+		w.deliver(gcS.MetadataStore(), logHashes(gcR.MetadataStore()))
+		_, err = gcS.MetadataStore().SendSecret(w.ctx, gcR.MemberPubKey())
+		vmust(err)
+		want := map[string]bool{}
+		for i := 0; i < 3; i++ {
+			if i == pos {
+				_, err = gcS.MessageStore().AddOperation(w.ctx, operation.NewOperation(nil, "ADD", []byte("not a message envelope")), nil)
+				vmust(err)
+			}
+			body := fmt.Sprintf("batch-message-%d", i)
+			_, err = gcS.MessageStore().AddMessage(w.ctx, []byte(body))
+			vmust(err)
+			want[body] = true
+		}
+		sub, err := gcR.MessageStore().EventBus().Subscribe(new(*protocoltypes.GroupMessageEvent))
+		vmust(err)
+		w.deliver(gcR.MetadataStore(), logHashes(gcS.MetadataStore()))
+		vmust(gcR.ActivateGroupContext(nil))
+		// the whole message log in one batch, oldest first
+		w.deliver(gcR.MessageStore(), logHashes(gcS.MessageStore()))
+		got := map[string]bool{}
+		deadline := time.After(45 * time.Second)
+	wait:
+		for len(got) < len(want) {
+			select {
+			case e := <-sub.Out():
+				got[string(e.(*protocoltypes.GroupMessageEvent).Message)] = true
+			case <-deadline:
+				break wait
+			}
+		}
+		sub.Close()
+		rep.Eval(fmt.Sprintf("batch-with-unreadable-entry/position=%d/all-delivered=%v", pos, len(got) == len(want)))
+		rep.AddTransitions(1)
+		if len(got) != len(want) {
+			rep.Violation("C08/messages-after-unreadable-entry-not-delivered", fmt.Sprintf("a replication batch of 3 messages with an entry that is no message envelope before message %d: delivered %v of %v within 45s", pos, keysOf(got), keysOf(want)), map[string]interface{}{"position": pos})
+		}
+		_ = gcR.Close()
+		_ = gcS.Close()
+	}
+}
+
+// c08bOwnCounters: a device sends through its message store (the way the service does), and its own message loop
+// handles each of its entries before the next send: the envelopes in its log carry the counters 1, 2, 3, ...
+func c08bOwnCounters(rep *vrep.Report, w *vWorld) {
+	g := vDetGroup(w.seed, "c08b-own")
+	dS := w.newDevice("S", "own")
+	gcS := dS.open(g)
+	_, err := gcS.MetadataStore().AddDeviceToGroup(w.ctx)
+	vmust(err)
+	vmust(gcS.ActivateGroupContext(nil))
+	sub, err := gcS.MessageStore().EventBus().Subscribe(new(*protocoltypes.GroupMessageEvent))
+	vmust(err)
+	defer sub.Close()
+	const n = 4
+	for i := 0; i < n; i++ {
+		_, err := gcS.MessageStore().AddMessage(w.ctx, []byte(fmt.Sprintf("own-%d", i)))
+		vmust(err)
+		select {
+		case <-sub.Out():
+		case <-time.After(45 * time.Second):
+			rep.Violation("C08/own-message-not-delivered", fmt.Sprintf("the device's own message %d is not handed to its subscribers within 45s", i), nil)
+			return
+		}
+	}
+	var ctrs []uint64
+	for _, e := range gcS.MessageStore().OpLog().Values().Slice() {
+		op, err := operation.ParseOperation(e)
+		vmust(err)
+		_, h, err := dS.ss.OpenEnvelopeHeaders(op.GetValue(), g)
+		vmust(err)
+		ctrs = append(ctrs, h.Counter)
+	}
+	ok := len(ctrs) == n
+	for i, c := range ctrs {
+		if c != uint64(i+1) {
+			ok = false
+		}
+	}
+	rep.Eval(fmt.Sprintf("own-messages/counters-consecutive=%v", ok))
+	rep.AddTransitions(n)
+	if !ok {
+		rep.Violation("C08/own-messages-consume-counters", fmt.Sprintf("a device sends %d messages through its message store, handling each of its own entries before the next send: the envelopes carry counters %v instead of 1..%d (handling an own entry moved the sending chain; receivers lose the sender once the gaps exceed their key window)", n, ctrs, n), nil)
+	}
+	_ = gcS.Close()
 }
 
 func keysOf(m map[string]bool) []string {
